@@ -160,6 +160,15 @@ def generate0(tier, rng):
             yield 'cbor.enc 1 m1 ' + ' '.join(entry(k1, ['t' + hexs(b'image/webp')]))
             yield 'cbor.enc 1 m2 ' + ' '.join(entry(k1, ['b' + hexs(rbytes(rng, 40))]) + entry(k2, ['u7']))
             yield 'cbor.enc 1 m2 ' + ' '.join(entry('u1', ['t' + hexs(b'v' * kl)]) + entry(k2, ['a2', 'u1', 'u2']))
+    # refusals inside map entries (the key / value encoders of GenerateMapEntry are encoders too): invalid UTF-8 as key, as value, inside
+    # a nested map; a nested map with a repeated key; and repeated keys whose VALUES are equal as well (still two equal keys)
+    bad = 't' + hexs(b'caf\xe9')
+    for script in (f'm1 k1 {bad} v1 u1', f'm1 k1 u1 v1 {bad}', f'm2 k1 u1 v1 {bad} k1 u2 v1 u2', f'm1 k1 u1 v1 m1 k1 {bad} v1 u1', f'm1 k1 u1 v1 m1 k1 u1 v1 {bad}',
+                   'm1 k1 u1 v1 m2 k1 t6b v1 u1 k1 t6b v1 u2', 'm1 k1 m2 k1 t6b v1 u1 k1 t6b v1 u2 v1 u1', 'm1 k1 u1 v2 a1 m2 k1 u5 v1 u1 k1 u5 v1 u1',
+                   'm2 k1 t6b v1 t76 k1 t6b v1 t76', 'm3 k1 t6b v1 t76 k1 t61 v1 u1 k1 t6b v1 t76', 'm2 k1 u1 v1 u1 k1 u1 v1 u1', 'm3 k1 u2 v1 u1 k1 u1 v1 u1 k1 u1 v1 u1',
+                   'm2 k1 b6b v1 m0 k1 b6b v1 m0', 'm2 k1 t6b v0 k1 t6b v0'):
+        yield 'cbor.enc 1 ' + script
+        yield 'cbor.enc.cont 2 ' + script + ' u7'
     # keys of equal length that agree in their first 7, 8, 9, 15 bytes (a comparison that looks at a prefix only cannot order them), in every
     # caller order, with and without a duplicate among them
     for ks in ([b'content-language', b'content-encoding'], [b'content-language', b'content-encoding', b'content-location'], [b'abcdefgX', b'abcdefgA'], [b'abcdefghX', b'abcdefghA'],
